@@ -21,6 +21,7 @@ type Config struct {
 	OddTimes    bool // pre-1970 / post-2038 mtimes
 	ExtraNames  []string
 	LinkPct     int // share of nodes that are symlinks (default 18)
+	LinkIntents []string // overrides the set of link intents
 }
 
 var plainNames = []string{"a", "b", "c", "foo", "bar", "x.txt", "main.tf", "README.md", "mod", "sub", "data", "baz.txt"}
@@ -113,6 +114,9 @@ func genSpec(cfg Config) *rapid.Generator[spec] {
 			}
 			if cfg.OutLinks {
 				intents = append(intents, "out-rel-file", "out-rel-dir", "out-abs-file", "out-abs-dir", "sibling-prefix", "in-abs", "out-chain", "out-dangling", "climb-by-name")
+			}
+			if len(cfg.LinkIntents) > 0 {
+				intents = cfg.LinkIntents
 			}
 			s.Intent = rapid.SampledFrom(intents).Draw(t, "intent")
 		}
